@@ -502,6 +502,14 @@ def match_phase(chk, hy, env, n_forms, depth):
             py_cases.append("        case %s%s:\n            result = %s" % (
                 P.pat_python(pat), (" if " + guard[1]) if guard else "", body_py))
         hy_src = "(fn [s] (match s %s))" % " ".join(hy_cases)
+        style = rng.random()
+        if style < 0.2:      # the assignment target is the subject variable (7b4f7e5)
+            hy_src = "(fn [s] (setv s (match s %s)) s)" % " ".join(hy_cases)
+        elif style < 0.3:
+            hy_src = "(fn [s] (setx s (match s %s)))" % " ".join(hy_cases)
+        elif style < 0.4:
+            hy_src = "(fn [s0] (let [s s0] (setv s (match s %s)) s))" % " ".join(hy_cases)
+        chk.count("match-form:" + ("plain" if style >= 0.4 else "assigned-to-subject-variable"))
         py_src = ("def f(s):\n    result = None\n    match s:\n%s\n    return result\n" % "\n".join(py_cases))
         try:
             hf = ("ok", hy.eval(hy.read(hy_src), module=env))
